@@ -403,6 +403,7 @@ func Run(cfg Config) int {
 				"slowest":                  slow,
 				"samples":                  samples,
 				"lemma_uses":               eng.LemmaUse,
+				"assumed_postconditions":   eng.AssumedClauses,
 				"returns_covered":          coveredReturns,
 				"returns_cover_inconclusive": inconclusiveReturns,
 				"infeasible_paths":         infeasiblePaths,
